@@ -62,7 +62,9 @@ def flatten_hist(h):
     mounts, cur = [], {}
     for op in h["ops"]:
         if op[0] == "mount":
-            _, bind, ad, cfg, dflt, _via = op
+            _, bind, ad, cfg, dflt, via = op
+            if via == "add":                  # add_collection(module): no auto_dash_names=, no config=
+                ad, cfg = None, None
             m = {"bind": bind, "ad": ad, "dflt": bool(dflt), "cfg": ns.py_merge(ns_cfg, cfg or {})}
             mounts.append(m)
             cur[bind] = m
@@ -76,6 +78,26 @@ def flatten_hist(h):
               "bind": m["bind"], "default": m["dflt"]} for m in mounts]
     root = {"name": h.get("root_name"), "auto_dash": True, "config": copy.deepcopy(root_cfg), "items": items}
     return root, dict(h["ns"], config=copy.deepcopy(ns_cfg))
+
+
+def coq_hist(h):
+    """coq/Model/CollHist.v [hist]"""
+    def bopt(x):
+        return ct.opt(ct.b(x) if x is not None else None)
+    ops = []
+    for op in h["ops"]:
+        if op[0] == "mount":
+            _, bind, ad, cfg, dflt, via = op
+            ops.append("(HMount %s %s %s %s)" % (bopt(ad if via != "add" else None),
+                                                ct.opt(ct.tree(gt.unjson(cfg)) if cfg is not None and via != "add" else None),
+                                                ct.s(bind), ct.b(bool(dflt))))
+        elif op[0] == "ns":
+            ops.append("(HConfNs %s)" % ct.tree(gt.unjson(op[1])))
+        elif op[0] == "conf":
+            ops.append("(HConfMount %s %s)" % (ct.s(op[1]), ct.tree(gt.unjson(op[2]))))
+        elif op[0] == "root":
+            ops.append("(HConfRoot %s)" % ct.tree(gt.unjson(op[1])))
+    return "(mkHist %s %s %s %s)" % (ct.s(h["module"]), ns.sub(h["ns"]), ns.opt_s(h.get("root_name")), ct.lst(ops))
 
 
 def script_of(case):
@@ -326,7 +348,11 @@ class C17(Prop):
                     obs.append({"err": "RecursionError"})
                 except Exception as e:  # noqa
                     obs.append({"err": type(e).__name__})
-        return {"state": st, "obs": obs, "body": self._body_views(case, coll, b, obs) if coll is not None else []}
+        out = {"state": st, "obs": obs, "body": self._body_views(case, coll, b, obs) if coll is not None else []}
+        if "hist" in case:
+            # the module's own namespace object, dumped AFTER every lookup and execution
+            out["modns"] = ns.dump(self._modobj) if coll is not None else None
+        return out
 
     def _run_hist(self, case, b):
         """replay a build history on real objects -> (root | None, {"ok": dump} | {"err": cls})"""
@@ -367,7 +393,7 @@ class C17(Prop):
                             root.configuration(nm)
                         except Exception:  # noqa
                             pass
-            self._modns = ns.dump(nsobj)
+            self._modobj = nsobj
         except Exception as e:  # noqa
             return None, {"err": type(e).__name__}
         return root, {"ok": ns.dump(root)}
@@ -429,7 +455,14 @@ class C17(Prop):
         st = ct.result(obs["state"], ns.state)
         o = ct.lst([ct.result(x, lambda v: ct.pair(ct.n(v[0]), ct.tree(gt.unjson(v[1])))) for x in obs["obs"]])
         body = ct.lst([ct.result(x, lambda v: ct.pair(ct.n(v[0]), ct.tree(gt.unjson(v[1])))) for x in obs.get("body", [])])
-        return "(mk %s %s %s %s %s)" % (ns.sub(script_of(case)), ct.strs(case["names"]), st, o, body)
+        hist = nsscript = modns = "None"
+        if "hist" in case:
+            hist = "(Some %s)" % coq_hist(case["hist"])
+            nsscript = "(Some %s)" % ns.sub(flatten_hist(case["hist"])[1])
+            if obs.get("modns") is not None:
+                modns = "(Some %s)" % ns.state(obs["modns"])
+        return "(mk %s %s %s %s %s %s %s %s)" % (ns.sub(script_of(case)), ct.strs(case["names"]), st, o, body,
+                                                 hist, nsscript, modns)
 
     def nontrivial(self, case, obs):
         if "ok" not in obs["state"]:
